@@ -203,7 +203,8 @@ def _leg_lists(ns, res, spec, rng, node, js_batch):
             for col in range(len(names)):
                 nm = names[col]
                 vs = [('dq', 'a[%s]' % qast.lit(nm, '"')), ('sq', 'a[%s]' % qast.lit(nm, "'")), ('bt', 'a[%s]' % qast.lit(nm, '`').replace('${', '\\${'))]
-                if qast.attr_safe(nm):
+                if qast.attr_safe(nm) or nm == '__proto__':
+                    # (a column may be called __proto__: a.__proto__ is then that column, like any other name)
                     vs.append(('attr', 'a.%s' % nm))
                 for style, var in vs:
                     js_batch.append((names, col, style, {'query': 'select %s, NR' % var, 'input': [list(x) for x in A], 'join': None, 'input_cols': list(names), 'join_cols': None}))
